@@ -660,7 +660,10 @@ static void Disassemble_68(
             pSymbolPrefix = NULL;
         }
         pOp = MakeSymbolic(OpAddr, 2, pSymbolPrefix, NumBuf, sizeof(NumBuf));
-        as_snprintf(pInfo->SrcLine, sizeof(pInfo->SrcLine), "%s\t%s", pOpcode->Memo, pOp);
+        /* the assembler would choose direct addressing for an address in page 0: */
+        as_snprintf(
+                pInfo->SrcLine, sizeof(pInfo->SrcLine), "%s\t%s%s", pOpcode->Memo,
+                (OpAddr < 0x100) ? ">" : "", pOp);
         break;
     case eImmediate:
         if (!RetrieveData(Address + 1, Data, pOpcode->OpSize + 1)) {
